@@ -427,7 +427,12 @@ def make_batches(fam, rows, geom, ci=0, with_dom=False, num_domains=1):
   ds = client_dataset(fam, rows, with_dom)
   if geom['kind'] == 'plain':
     return list(ds.batch(batch_size=geom['b']))
-  batches = list(ds.padded_batch(batch_size=geom['b'], num_batch_size_buckets=geom['k']))
+  view = ds.padded_batch(batch_size=geom['b'], num_batch_size_buckets=geom['k'])
+  if geom.get('peek'):
+    # the caller looked at the first batch of this view before the pass that
+    # is evaluated (shapes for initialisation, a progress bar's length probe)
+    next(iter(view), None)
+  batches = list(view)
   for pos, size, garbage in geom['pads']:
     batches.insert(pos % (len(batches) + 1),
                    laid_batch(fam, rows, [-1] * size, garbage, with_dom, num_domains, pos))
@@ -943,6 +948,8 @@ def geom_strategy(draw, tier, sizes, kinds):
         min_size=1, max_size=2))
   else:
     geom['pads'] = []
+  if draw(st.sampled_from([0, 0, 1])):
+    geom['peek'] = True
   return geom
 
 
